@@ -165,6 +165,8 @@ Record pool_req := {
                                4 body breaks | 5 body stalls until ctx done | 6 body too large *)
   q_cancel : Z;
   q_clen   : Z;             (* request body: 0 declared length, 1 unknown length (chunked) *)
+  q_mutate : bool;          (* after the observation the harness rewrites the response object the client
+                               got (a downstream filter); must never show in any other request *)
   (* observed *)
   q_calls  : Z;             (* transport calls *)
   q_res    : Z;             (* result string: 0 "" 1 serverError 2 timeout 3 clientError 4 failureCode
@@ -173,6 +175,7 @@ Record pool_req := {
   q_from   : Z;             (* attempt whose backend response the client gets; -1 none / gateway-made *)
   q_plen   : Z;             (* payload size of the response the client gets *)
   q_bodies : Z;             (* attempts that received the complete request body *)
+  q_hdrs   : Z;             (* number of headers of a gateway-made response (a fresh one has none) *)
   q_cbt    : Z;             (* breaker window total right after this request (-1 = no breaker) *)
   q_cbf    : Z;             (* breaker window failures right after this request *)
   q_gaps   : list Z
@@ -184,6 +187,8 @@ Record pool_case := {
   k_timeout : Z;            (* ns, 0 = none *)
   k_cb      : bool;
   k_fcodes  : list Z;
+  k_smax    : Z;            (* pool serverMaxBodySize (0 = default) *)
+  k_prelude : bool;         (* another proxy failed with 503/499/408/500 before, its responses were rewritten *)
   k_reqs    : list pool_req;
   k_cbt     : Z;            (* breaker window totals after all requests (-1 = no breaker) *)
   k_cbf     : Z
@@ -197,6 +202,8 @@ Definition tscript_of (s : list (Z * Z)) (i : nat) : tscript :=
   | Some (4, _) => SBodyErr
   | Some (5, _) => SBodyBlock
   | Some (6, _) => SBodyErr
+  | Some (7, c) => SStatus c     (* body of exactly serverMaxBodySize bytes: still accepted *)
+  | Some (8, c) => SStatus c     (* one byte less *)
   | _ => SErr
   end.
 
@@ -213,12 +220,23 @@ Definition presult_code (r : presult) : Z * Z :=
   | PHang => (8, 0)
   end.
 
-(** (from, payload size): the scripted backend answers a 2-byte payload *)
-Definition visible_code (v : visible) : Z * Z :=
+(** (from, payload size); [sz j] = size of the payload the scripted backend sent in attempt j *)
+Definition visible_code (sz : nat -> Z) (v : visible) : Z * Z :=
   match v with
-  | VBackend j => (Z.of_nat j, 2)
+  | VBackend j => (Z.of_nat j, sz j)
   | VGateway _ | VNothing => (-1, 0)
   end.
+
+Definition is_status (k : Z) : bool := (k =? 0) || (k =? 7) || (k =? 8).
+
+Definition pscript_at (s : list (Z * Z)) (i : Z) : Z * Z :=
+  if i <? 0 then (1, 0) else match nth_error s (Z.to_nat i) with Some k => k | None => (1, 0) end.
+
+(** payload size of the scripted answer of attempt i: 2 bytes, or serverMaxBodySize (kind 7) /
+    one byte less (kind 8) when a limit is configured *)
+Definition bsize (smax : Z) (s : list (Z * Z)) (i : Z) : Z :=
+  let '(k, _) := pscript_at s i in
+  if 0 <? smax then (if k =? 7 then smax else if k =? 8 then smax - 1 else 2) else 2.
 
 Definition pool_of (c : pool_case) : pool :=
   {| pl_retry := if k_retry c then Some (k_pol c) else None;
@@ -238,8 +256,11 @@ Definition pool_model (c : pool_case) :=
   let pl := pool_of c in
   let outs := map (fun q => (pool_handle pl true (request_of q),
                              waits_of (handler_trace pl (request_of q)))) (k_reqs c) in
-  (map (fun '(o, w) => (Z.of_nat (po_attempts o), presult_code (po_result o), w,
-                        visible_code (po_visible o))) outs,
+  (map (fun q => let o := pool_handle pl true (request_of q) in
+                 (Z.of_nat (po_attempts o), presult_code (po_result o),
+                  waits_of (handler_trace pl (request_of q)),
+                  visible_code (fun j => bsize (k_smax c) (q_script q) (Z.of_nat j)) (po_visible o)))
+       (k_reqs c),
    if k_cb c then (Z.of_nat (total_records (map fst outs)), Z.of_nat (failed_records (map fst outs)))
    else (-1, -1)).
 
@@ -249,6 +270,7 @@ Definition corr_req (q : pool_req) (m : Z * (Z * Z) * list Z * (Z * Z)) : bool :
   (* every attempt of the model receives the complete request body *)
   (q_bodies q =? calls) &&
   (if q_res q <? 7 then Zeqb_pair vis (q_from q, q_plen q) else true) &&
+  (q_hdrs q =? 0) &&
   (Z.of_nat (List.length (q_gaps q)) =? Z.max 0 (q_calls q - 1)) &&
   (List.length (q_gaps q) <=? List.length waits)%nat &&
   ge_prefix (q_gaps q) waits.
@@ -283,13 +305,11 @@ Definition corr_pool (c : pool_case) : bool :=
   forall2b corr_req (k_reqs c) outs && Zeqb_pair cb (k_cbt c, k_cbf c) && corr_cum c.
 
 (** the property on the implementation's trace *)
-Definition pscript_at (s : list (Z * Z)) (i : Z) : Z * Z :=
-  if i <? 0 then (1, 0) else match nth_error s (Z.to_nat i) with Some k => k | None => (1, 0) end.
 
 (** does attempt [i] of this script end in an error the retry wrapper retries? *)
 Definition pfailed (c : pool_case) (q : pool_req) (i : Z) : bool :=
   let '(k, code) := pscript_at (q_script q) i in
-  if k =? 0 then zmem code (k_fcodes c) else negb (k =? 3).
+  if is_status k then zmem code (k_fcodes c) else negb (k =? 3).
 
 Fixpoint pall_failed_before (c : pool_case) (q : pool_req) (n : nat) : bool :=
   match n with
@@ -301,7 +321,7 @@ Fixpoint pall_failed_before (c : pool_case) (q : pool_req) (n : nat) : bool :=
 Definition expect_last (c : pool_case) (q : pool_req) (i : Z) : Z * Z :=
   let '(k, code) := pscript_at (q_script q) i in
   let cancelled := (0 <=? q_cancel q) && (q_cancel q <=? i) in
-  if k =? 0 then (if zmem code (k_fcodes c) then (4, code) else (0, code))
+  if is_status k then (if zmem code (k_fcodes c) then (4, code) else (0, code))
   else if k =? 3 then (7, 0)
   else if (k =? 4) || (k =? 6) then (5, 500)
   else if k =? 5 then (if cancelled || (0 <? k_timeout c) then (5, 500) else (8, 0))
@@ -322,8 +342,9 @@ Definition prop_req (c : pool_case) (q : pool_req) : bool :=
   (* the response the client gets: with the empty result or failureCode the backend response of
      the LAST attempt; with any other failure result the gateway's own failure response (no
      backend header, no payload) - never a backend response whose body could not be fetched *)
-  (if (q_res q =? 0) || (q_res q =? 4) then (q_from q =? n - 1) && (q_plen q =? 2)
-   else if q_res q <? 7 then (q_from q =? -1) && (q_plen q =? 0) else true) &&
+  (if (q_res q =? 0) || (q_res q =? 4)
+   then (q_from q =? n - 1) && (q_plen q =? bsize (k_smax c) (q_script q) (n - 1))
+   else if q_res q <? 7 then (q_from q =? -1) && (q_plen q =? 0) && (q_hdrs q =? 0) else true) &&
   (* the request body is never re-sent incompletely: every attempt got all of it *)
   (q_bodies q =? n) &&
   (Z.of_nat (List.length (q_gaps q)) =? n - 1) &&
@@ -363,23 +384,25 @@ Definition class_pool (c : pool_case) : N :=
     let b8 := existsb (fun q => q_res q =? 7) (k_reqs c) in
     let b9 := existsb (fun q => q_res q =? 5) (k_reqs c) in
     let b10 := existsb (fun q => q_stream q && (q_clen q =? 1)) (k_reqs c) in
+    let b11 := k_prelude c || existsb q_mutate (removelast (k_reqs c)) in
     (1 + bN b1 1 + bN b2 2 + bN b3 4 + bN b4 8 + bN b5 16 + bN b6 32 + bN b7 64 + bN b8 128
-       + bN b9 256 + bN b10 512)%N
+       + bN b9 256 + bN b10 512 + bN b11 1024)%N
   end.
 
 (** the case the MODEL itself would produce for a pool configuration and a list of client
     requests (stream, script, cancel, draws, pick) - for the checker-soundness theorem *)
-Definition model_pool_req (pl : pool) (x : bool * list (Z * Z) * Z * (nat -> Z) * (nat -> bool)) : pool_req :=
+Definition model_pool_req (pl : pool) (smax : Z) (x : bool * list (Z * Z) * Z * (nat -> Z) * (nat -> bool)) : pool_req :=
   let '(stream, script, cancel, draws, pick) := x in
   let rq := {| rq_stream := stream; rq_script := tscript_of script; rq_cancel := cancel_of cancel;
                rq_draws := draws; rq_pick := pick |} in
   let out := pool_handle pl true rq in
   let n := po_attempts out in
-  {| q_stream := stream; q_script := script; q_cancel := cancel; q_clen := 0;
+  let vis := visible_code (fun j => bsize smax script (Z.of_nat j)) (po_visible out) in
+  {| q_stream := stream; q_script := script; q_cancel := cancel; q_clen := 0; q_mutate := false;
      q_calls := Z.of_nat n;
      q_res := fst (presult_code (po_result out)); q_status := snd (presult_code (po_result out));
-     q_from := fst (visible_code (po_visible out)); q_plen := snd (visible_code (po_visible out));
-     q_bodies := Z.of_nat n; q_cbt := -1; q_cbf := -1;
+     q_from := fst vis; q_plen := snd vis;
+     q_bodies := Z.of_nat n; q_hdrs := 0; q_cbt := -1; q_cbf := -1;
      q_gaps := firstn (n - 1) (waits_of (handler_trace pl rq)) |}.
 
 Definition model_pool_rq (x : bool * list (Z * Z) * Z * (nat -> Z) * (nat -> bool)) : request :=
@@ -389,11 +412,13 @@ Definition model_pool_rq (x : bool * list (Z * Z) * Z * (nat -> Z) * (nat -> boo
 
 Definition set_cum (q : pool_req) (a b : Z) : pool_req :=
   {| q_stream := q_stream q; q_script := q_script q; q_cancel := q_cancel q; q_clen := q_clen q;
+     q_mutate := q_mutate q;
      q_calls := q_calls q; q_res := q_res q; q_status := q_status q; q_from := q_from q;
-     q_plen := q_plen q; q_bodies := q_bodies q; q_cbt := a; q_cbf := b; q_gaps := q_gaps q |}.
+     q_plen := q_plen q; q_bodies := q_bodies q; q_hdrs := q_hdrs q;
+     q_cbt := a; q_cbf := b; q_gaps := q_gaps q |}.
 
 (** the model's requests with the running breaker totals (from the model's own records) *)
-Fixpoint model_pool_reqs (pl : pool) (xs : list (bool * list (Z * Z) * Z * (nat -> Z) * (nat -> bool)))
+Fixpoint model_pool_reqs (pl : pool) (smax : Z) (xs : list (bool * list (Z * Z) * Z * (nat -> Z) * (nat -> bool)))
          (t f : Z) : list pool_req :=
   match xs with
   | [] => []
@@ -401,18 +426,19 @@ Fixpoint model_pool_reqs (pl : pool) (xs : list (bool * list (Z * Z) * Z * (nat 
       let out := pool_handle pl true (model_pool_rq x) in
       let t' := t + Z.of_nat (List.length (po_records out)) in
       let f' := f + count_true (po_records out) in
-      set_cum (model_pool_req pl x) (if pl_cb pl then t' else -1) (if pl_cb pl then f' else -1)
-        :: model_pool_reqs pl r t' f'
+      set_cum (model_pool_req pl smax x) (if pl_cb pl then t' else -1) (if pl_cb pl then f' else -1)
+        :: model_pool_reqs pl smax r t' f'
   end.
 
-Definition model_pool_case (retry : bool) (p : policy) (timeout : Z) (cb : bool) (fcodes : list Z)
+Definition model_pool_case (retry : bool) (p : policy) (timeout : Z) (cb : bool) (fcodes : list Z) (smax : Z)
            (xs : list (bool * list (Z * Z) * Z * (nat -> Z) * (nat -> bool))) : pool_case :=
   let c0 := {| k_retry := retry; k_pol := p; k_timeout := timeout; k_cb := cb; k_fcodes := fcodes;
-               k_reqs := []; k_cbt := -1; k_cbf := -1 |} in
+               k_smax := smax; k_prelude := false; k_reqs := []; k_cbt := -1; k_cbf := -1 |} in
   let pl := pool_of c0 in
   let outs := pool_run pl (map model_pool_rq xs) in
   {| k_retry := retry; k_pol := p; k_timeout := timeout; k_cb := cb; k_fcodes := fcodes;
-     k_reqs := model_pool_reqs pl xs 0 0;
+     k_smax := smax; k_prelude := false;
+     k_reqs := model_pool_reqs pl smax xs 0 0;
      k_cbt := if cb then Z.of_nat (total_records outs) else -1;
      k_cbf := if cb then Z.of_nat (failed_records outs) else -1 |}.
 
